@@ -5,8 +5,9 @@ D="$(mktemp -d /tmp/conf_XXXXXX)"
 git -C /repo archive HEAD | tar -x -C "$D"
 cd "$D" && git init -q . 
 export PATH=/venv/bin:$PATH
-/venv/bin/python "$S/demo.py" > "$D/clean.txt" 2>&1; echo "demo clean rc=$?"
+mkdir -p "$D/_out" && cp "$S/demo.py" "$D/_out/demo.py"
+/venv/bin/python "$D/_out/demo.py" > "$D/clean.txt" 2>&1; echo "demo clean rc=$?"
 git apply --whitespace=nowarn "$S/patch.diff" || { echo "PATCH DOES NOT APPLY"; rm -rf "$D"; exit 1; }
-/venv/bin/python "$S/demo.py" > "$D/patched.txt" 2>&1; echo "demo patched rc=$?"; tail -2 "$D/patched.txt"
+/venv/bin/python "$D/_out/demo.py" > "$D/patched.txt" 2>&1; echo "demo patched rc=$?"; tail -2 "$D/patched.txt"
 if [ $# -gt 0 ]; then /venv/bin/python -m pytest -q -p no:cacheprovider -x "$@" 2>&1 | tail -1; fi
 cd /; rm -rf "$D"
